@@ -288,7 +288,9 @@ def case_strategy(draw, ctx):
     bt, bmt = tiers(bool(planes))
     if flavour == "tensor" and not planes:
         bt = "full"
-    background = _material(draw, bt, bmt, draw(st.integers(0, 3)) == 0)
+    # lossy tensor media exercise the loss-coupled off-diagonal averages of the 9-component kernels: half of the
+    # full-tensor materials are lossy, a quarter of the others
+    background = _material(draw, bt, bmt, draw(st.integers(0, 1 if bt == "full" else 3)) == 0)
     objects = []
     n_obj = draw(st.integers(1, 2)) if (flavour == "tensor" and planes) else draw(st.integers(0, 2))
     for i in range(n_obj):
@@ -310,7 +312,7 @@ def case_strategy(draw, ctx):
         if flavour == "tensor" and planes and not iso_only and i == 0:
             t = "full"
         objects.append({"name": f"box{i}", "lo": lo, "hi": hi, "order": draw(st.integers(0, 1)),
-                        "material": _material(draw, t, mt, draw(st.integers(0, 3)) == 0)})
+                        "material": _material(draw, t, mt, draw(st.integers(0, 1 if t == "full" else 3)) == 0)})
 
     # ---- detectors ------------------------------------------------------------------------------
     detectors = []
@@ -507,7 +509,7 @@ def _normalise(spec):
 
 
 SUBS = [
-    Sub(name="orientations", body=body, strategy=lambda ctx: case_strategy(ctx), quick=5, thorough=320,
+    Sub(name="orientations", body=body, strategy=lambda ctx: case_strategy(ctx), quick=10, thorough=320,
         lanes=("f64", "f32"), f32_fraction=0.25, quick_shards=2, max_seconds_quick=600.0,
         rule="three cyclic orientations of a random scene; fields and raw detector records permute"),
 ]
